@@ -3,6 +3,7 @@ package mboxprop
 import (
 	"bytes"
 	"context"
+	"errors"
 	"fmt"
 	"testing"
 	"time"
@@ -10,6 +11,7 @@ import (
 	"github.com/btcsuite/btcd/btcec/v2"
 	"github.com/lightninglabs/lightning-node-connect/mailbox"
 	"github.com/lightningnetwork/lnd/aezeed"
+	"github.com/lightningnetwork/lnd/keychain"
 	"pgregory.net/rapid"
 
 	"verif/harness/stats"
@@ -178,7 +180,30 @@ func checkSIDs(seedA, seedB uint64) string {
 			return "different client keys give the same key-derived SID"
 		}
 	}
+	// a static key whose ECDH operation fails (locked wallet, remote signer
+	// down): nobody can compute the secret, so there is no identifier to
+	// derive. SID() has to report that; if it returns a value all the same,
+	// that value must still not be shared by an unrelated pair of keys.
+	f1 := mailbox.NewConnData(&failingKey{SingleKeyECDH: cli}, srv.PubKey(), passA, nil, noop1, noop2)
+	f2 := mailbox.NewConnData(&failingKey{SingleKeyECDH: ecdhKey(seedB^0x5bd1e995, "cli2")}, ecdhKey(seedB, "srv2").PubKey(), passB, nil, noop1, noop2)
+	v1, err1 := f1.SID()
+	v2, err2 := f2.SID()
+	if err1 == nil && err2 == nil && v1 == v2 {
+		return "two unrelated key pairs whose ECDH operation fails get the same SID (and no error): different secrets must give different identifiers"
+	}
+	if err1 == nil && v1 == kc {
+		return "a ConnData whose ECDH operation fails reports the SID of the working key pair"
+	}
 	return ""
+}
+
+// failingKey is a static key whose private-key operation is unavailable.
+type failingKey struct {
+	keychain.SingleKeyECDH
+}
+
+func (k *failingKey) ECDH(*btcec.PublicKey) ([32]byte, error) {
+	return [32]byte{}, errors.New("signer unavailable")
 }
 
 func runC17(c c17Case) string {
